@@ -16,6 +16,14 @@ from .prng import Rng
 WORDS = ['alpha', 'beta', 'gamma', 'delta', 'omega', 'value', 'result', 'buffer', 'handler', 'widget']
 
 
+def _epytext_symbols() -> List[str]:
+    try:
+        from pydoctor.epydoc.markup import epytext
+        return list(epytext.SYMBOLS)
+    except Exception:
+        return []
+
+
 def _sentence(rng: Rng, n: int = 5) -> str:
     return ' '.join(rng.choice(WORDS) for _ in range(n)).capitalize() + '.'
 
@@ -31,6 +39,11 @@ def body(rng: Rng, fmt: str, kind: str, xref: Optional[str], plant: Optional[str
             t += f'{h}\n' + '=' * len(h) + f'\n\n{s3}\n\n'
             if rng.chance(0.5):
                 t += f'{h}\n' + '=' * len(h) + f'\n\nAgain: {s1}\n\n'
+        if rng.chance(0.4):
+            # symbol and escape markup, drawn from the table of the epytext module under test
+            syms = _epytext_symbols()
+            if syms:
+                t += 'Symbols: ' + ' '.join(f'S{{{rng.choice(syms)}}}' for _ in range(rng.randint(1, 3))) + ' and E{lb}braceE{rb}.\n\n'
         if is_func:
             t += '@param a: the a argument\n@type a: C{int}\n@return: something useful\n@rtype: C{str}\n'
         elif kind == 'class':
